@@ -67,6 +67,40 @@ def run(tier, seed):
             scheds.append([rng.choice([0, 1, 1, 2, 3, 5]) for _ in range(3 * total)] + [1000])
         for sc in scheds:
             writes.append({"kind": "write", "prefix": prefix, "sent": b["sent"], "sched": sc, "wire": b["wire"]})
+    # ---- the same message sequences over real sockets through FramedTransport (transport.rs): a 2-byte-prefix part followed by a
+    # 4-byte-prefix part in one stream, delivered in one piece / in small pieces; after the first part the reader either switches the
+    # transport's mode or takes the read half and goes on with a MessageDeframer of its own (what Connection and Node do)
+    seq2 = [json.loads(k[0]) for k in sents if k[1] == 2][:6] + [[[1] * 255, [], [2] * 256], [[3] * 65535, [4]]]
+    seq4 = [json.loads(k[0]) for k in sents if k[1] == 4][:6] + [[[5] * 65535, [], [6] * 65536, [7]], [[], [], [8] * 70000]]
+    tscen = []
+    for a in (seq2 or [[[1], [], [2, 3]]]):
+        for b in (seq4 or [[[9], [], [8, 7]]]):
+            total = sum(len(m) + 2 for m in a) + sum(len(m) + 4 for m in b)
+            # small streams: one write, byte by byte, 3-byte pieces; big ones: one write, 4097- and 65537-byte pieces (the transport reads a
+            # whole frame under one timeout, so tiny pieces of a big frame would only exercise that timeout)
+            for chunk in ((0, 1, 3) if total < 2000 else (0, 4097, 65537)):
+                for hand in ("mode", "read_half"):
+                    tscen.append({"id": len(tscen), "hs": a, "dist": b, "chunk": chunk, "handover": hand})
+    if not thorough:
+        tscen = tscen[:60]
+        for i, t in enumerate(tscen):
+            t["id"] = i
+    tp = os.path.join(lib.outdir(PID), "transport_in.ndjson")
+    to = os.path.join(lib.outdir(PID), "transport_out.ndjson")
+    lib.write_ndjson(tp, tscen)
+    lib.harness(["transport-run", tp, to], timeout=900)
+    for o in lib.read_ndjson(to):
+        t = tscen[o["id"]]
+        v.case("transport" + json.dumps([t["hs"], t["dist"], t["chunk"], t["handover"]]))
+        case = {"handshake_mode_messages": t["hs"], "distribution_mode_messages": t["dist"], "delivery": "one write" if t["chunk"] == 0 else f"{t['chunk']}-byte pieces", "handover": t["handover"]}
+        if "tool_error" in o:
+            raise lib.ToolError("transport scenario did not run: " + o["tool_error"])
+        if o["read_hs"] != t["hs"] or o["read_dist"] != t["dist"]:
+            v.violation("frames read back through FramedTransport (and after the read-half handover) are not the messages that were sent",
+                        {**case, "read_handshake_part": o["read_hs"], "read_distribution_part": o["read_dist"], "errors": o["errors"]})
+        if not o["written_matches_framing"]:
+            v.violation("FramedTransport::write did not produce the protocol's framing of the messages", {**case, "bytes_written": o["written_len"], "bytes_expected": o["expected_len"], "errors": o["errors"]})
+    v.cov["transport_scenarios"] = len(tscen)
     allrecs = recs + big + writes
     for i, r in enumerate(allrecs):
         r["id"] = i
